@@ -327,6 +327,196 @@ def rule_loose_signal(ctx, rep):
     rep.floor(rule, n, 20)
 
 
+class LineStr(AbstractValue):
+    """A non-blank input line: ends in its only newline; length is a symbol >= 2."""
+
+    def __init__(self, i):
+        self.i = i
+        self.prov = ('line', i)
+
+    def abs_len(self, interp):
+        from ..affine import Aff
+        return Aff.sym('len%d' % self.i)
+
+    def abs_is(self, interp, other):
+        return self is other
+
+    def abs_truth(self, interp):
+        return True
+
+    def abs_getattr(self, interp, name):
+        return _AbsBound(self, name)
+
+    def abs_method(self, interp, name, args, kwargs):
+        if name in ('strip', 'lstrip', 'rstrip'):
+            return NonBlank()      # the lines of a definition block are not blank
+        if name == 'count' and args == ['\n']:
+            return 1
+        return Unknown('line.%s' % name)
+
+
+class NonBlank(AbstractValue):
+    prov = ('non-blank',)
+
+    def abs_truth(self, interp):
+        return True
+
+    def abs_compare(self, interp, op, other, reflected):
+        if other == '' and op in (ast.Eq, ast.NotEq):
+            return op is ast.NotEq
+        return Unknown('nonblank-cmp')
+
+
+class JoinedLines(AbstractValue):
+    """''.join(<lines>): sliced at line boundaries, its newlines are counted by lines."""
+
+    def __init__(self, lines):
+        self.lines = list(lines)
+        self.prov = ('joined', tuple(l.i for l in self.lines))
+
+    def abs_len(self, interp):
+        from ..affine import Aff
+        total = Aff({}, 0)
+        for l in self.lines:
+            total = total.add(l.abs_len(interp))
+        return total
+
+    def abs_getattr(self, interp, name):
+        return _AbsBound(self, name)
+
+    def abs_getitem(self, interp, idx):
+        from ..affine import Aff
+        if isinstance(idx, slice) and idx.stop is None and idx.step is None:
+            start = Aff.lift(idx.start) if idx.start is not None else Aff({}, 0)
+            acc = Aff({}, 0)
+            for k in range(len(self.lines) + 1):
+                if start is not None and start == acc:
+                    return JoinedLines(self.lines[k:])
+                if k < len(self.lines):
+                    acc = acc.add(self.lines[k].abs_len(interp))
+        return Unknown('joined[...]')
+
+    def abs_method(self, interp, name, args, kwargs):
+        if name == 'count' and args == ['\n']:
+            return len(self.lines)
+        return Unknown('joined.%s' % name)
+
+
+def rule_def_account(ctx, rep):
+    """Link reference definitions followed directly by other content: Footnote.read joins the lines up to
+    the next blank line, scans definitions, and must hand back exactly the lines the definitions did not
+    use. Decided by interpreting read() over three abstract non-blank lines with match_reference replaced
+    by a stub under which the first definition spans k = 1, 2 or 3 lines and nothing else matches: on
+    every path the cursor must be left in front of line k."""
+    from ..affine import Aff
+    model = ctx.model
+    rule = 'R-DEF-ACCOUNT'
+    rep.rule(rule, 'Footnote.read hands back exactly the lines its definitions did not use')
+    fn = model.cls('block_token.Footnote')
+    rd = fn.lookup('read')[1]
+    mr = fn.lookup('match_reference')
+    if mr is None or mr[0] != 'method':
+        raise AnalysisError('anchor vanished: Footnote.match_reference')
+    mr = mr[1]
+    fw = model.cls('block_tokenizer.FileWrapper')
+    writers = [f for f in model.functions.values() if f.name == 'append_footnotes']
+    rep.instance(rule)
+    problems = {}
+    n = 0
+    Aff.lower_bounds = {'len0': 2, 'len1': 2, 'len2': 2}      # non-blank lines: a character and the newline
+    try:
+        for k in (1, 2, 3):
+            def runner(oracle, k=k):
+                it = Interp(model, loop_bound=4, while_bound=5)
+                it.reset_run(oracle)
+                install_rx_hooks(it, [])
+                lines = [LineStr(i) for i in range(3)]
+                it.intrinsics['str.join'] = lambda interp, args, kwargs: JoinedLines(list(interp.iterate(args[1]))) \
+                    if all(isinstance(x, LineStr) for x in interp.iterate(args[1])) else Unknown('join')
+                calls = []
+
+                def h_mr(interp, f, args, kwargs):
+                    calls.append(args)
+                    if len(calls) > 1:
+                        return None
+                    off = Aff.lift(args[-1])
+                    end = off
+                    for l in lines[:k]:
+                        end = end.add(l.abs_len(interp))
+                    return (end, ('label', 'dest', 'title', 'uri', None))
+                it.func_hooks[mr.qualname] = h_mr
+                for w_ in writers:
+                    it.func_hooks[w_.qualname] = lambda interp, f, args, kwargs: None
+                w = it.construct(fw, [lines], {})
+                try:
+                    r = it.call(it.getattr(fn, 'read'), [w], {})
+                    nxt = it.call(it.getattr(w, 'peek'), [], {})
+                except Raised as e:
+                    return ('raise', e.exc.kind, None)
+                except LoopTruncated:
+                    return ('trunc', None, None)
+                return ('ok', r, next((i for i, l in enumerate(lines) if l is nxt), None if nxt is not None else 3))
+            for trace, (kind, r, at) in enumerate_paths(runner, 64):
+                if kind == 'trunc':
+                    continue
+                n += 1
+                if kind == 'raise':
+                    problems['raises'] = 'raises %s on a %d-line definition' % (r, k)
+                elif at != k:
+                    problems['handed-back:%d-line-definition' % k] = (
+                        'after a definition that spans %d line(s) of a %d-line block, the cursor is left in front of line %s instead of '
+                        'line %d: %s' % (k, 3, at, k, 'lines the definition used are parsed again as text' if (at is not None and at < k)
+                                         else 'content that follows the definition is swallowed'))
+    finally:
+        Aff.lower_bounds = {}
+    rep.obligation(rule, not problems and n >= 3, {'reader': rd.short, 'paths': n, 'problems': sorted(problems)})
+    for key, msg in sorted(problems.items()):
+        rep.find(rule, rd.short, key, '%s: %s' % (rd.short, msg), loc(model.unit_of(rd), rd.node), witness='[foo]:\n/url\nsee [foo]')
+    rep.floor(rule, n, 3)
+
+
+def rule_int_precedence(ctx, rep):
+    """Inside a list item, a line that starts another block ends the item; only a line that does not is
+    looked at as a possible new item (CommonMark: `* * *` after `* Foo` is a thematic break, not an item).
+    Decided on every path of ListItem.read over abstract lines: whenever read() hands a line back as the
+    next item's marker, the interruption predicates were consulted for that line first and said no."""
+    from . import c13
+    model = ctx.model
+    rule = 'R-INT-PRECEDENCE'
+    rep.rule(rule, 'ListItem.read treats a line as a new item only after the interruption predicates declined it')
+    li = model.cls('block_token.ListItem')
+    rd = li.lookup('read')[1]
+    default = [c for c in ctx.configs() if c.label == 'HtmlRenderer' and not c.options][0]
+    rep.instance(rule)
+    n = 0
+    bad = set()
+    for trace, (kind, r, nested, w) in c13.explore_reader(model, li, nlines=3, active=default.block_types):
+        if kind != 'ret' or not isinstance(r, tuple) or len(r) != 2 or r[1] is None:
+            continue
+        idxs = set()
+        for x in (r[1] if isinstance(r[1], tuple) else [r[1]]):
+            if isinstance(x, AbsStr):
+                j = c13.line_index(x.prov)
+                if j is not None:
+                    idxs.add(j)
+        if len(idxs) != 1:
+            continue
+        j = idxs.pop()
+        if j == 0:
+            continue        # the item's own marker
+        n += 1
+        declined = any(k == ('interrupts', j - 1) and v is False for k, v in trace)
+        if not declined:
+            bad.add(j)
+    rep.obligation(rule, not bad and n > 0, {'reader': rd.short, 'paths that hand back a next marker': n, 'violating lines': sorted(bad)})
+    if bad:
+        rep.find(rule, rd.short, 'marker-before-interrupt',
+                 '%s can take a line as the start of the next list item without having asked the interruption predicates about '
+                 'it (or after they said yes): a thematic break written with the list\'s bullet character is swallowed as an '
+                 'empty item' % rd.short, loc(model.unit_of(rd), rd.node), witness='* Foo\n* * *')
+    rep.floor(rule, n, 2)
+
+
 def _branch_of(node, fnode):
     p = node
     while p is not fnode and p is not None:
@@ -340,6 +530,8 @@ def _branch_of(node, fnode):
 def run(ctx):
     rep = ctx.report
     rule_loose_signal(ctx, rep)
+    rule_def_account(ctx, rep)
+    rule_int_precedence(ctx, rep)
     # anchor "container readers strip their own prefix and re-tokenize the remainder": shared with C04
     from . import c04
     c04.rule_strip_provenance(ctx, rep)
